@@ -106,6 +106,10 @@ func Gen(seed uint64, profile string) *Scenario {
 		if len(sc.Pkgs) > 0 && len(sc.Pkgs[0].Mods) > 0 {
 			m := &sc.Pkgs[0].Mods[0]
 			m.Deps = append(m.Deps, Dep{Kind: "registry", Addr: rp.Addr, Constr: "", Finder: "F1"}, Dep{Kind: "registry", Addr: rp.Addr + "//sub", Constr: "", Finder: "F1"})
+			// ... and that module is what the first call adds, so that the first request for the
+			// version list (the one a fault on call 1 hits) is followed, in the same run, by the
+			// second reference
+			sc.Adds = append([]Add{{Kind: "remote", Addr: sc.Pkgs[0].Source(m.SubPath), Finder: m.Finder}}, sc.Adds...)
 		}
 	}
 	vr := simkit.NewRNG(seed, "bw/variants")
